@@ -26,6 +26,57 @@ def _case_job(cases):
     return run_cases(cases)
 
 
+def _bb_job(cases, ops):
+    from harness.bbatchjobs import run_cases
+
+    return run_cases(cases, ops)
+
+
+def broadcast_batch_replay(ctx: Ctx) -> int:
+    """J2O_BroadcastBatch: binary elementwise substitutes under vmap (batch positions, unmapped operands,
+    per-example ranks that differ); the specification of vmap (per-example evaluation) is the oracle."""
+    rb = run_tlc("MC_BroadcastBatch", "MC_BroadcastBatch_leftpad.cfg", timeout=900, workers=8)
+    tlc_must_pass(rb, "J2O_BroadcastBatch")
+    ctx.add_tlc(rb, "J2O_BroadcastBatch (sound rule)")
+    if rb.violated:
+        raise MachineryError(f"J2O_BroadcastBatch: {rb.violated} violated by the sound rule")
+    cleanup_tlc(rb)
+    if not ctx.quick:
+        for v in ("rightpad", "fastpath_unmapped"):
+            rd = run_tlc("MC_BroadcastBatch", f"MC_BroadcastBatch_{v}.cfg", timeout=600, coverage=False)
+            if not rd.violated:
+                raise MachineryError(f"self test: deviating broadcast batching rule {v} is not rejected")
+            cleanup_tlc(rd)
+    re_ = run_tlc("MC_BroadcastBatch", "MC_BroadcastBatchEmit.cfg", timeout=900, workers=1, coverage=False)
+    cases = parse_tlc_values(re_.output.splitlines())
+    cleanup_tlc(re_)
+    if not cases:
+        raise MachineryError("J2O_BroadcastBatch emitted no cases")
+    from harness.bbatchjobs import _ops  # noqa: F401  (names only; jax is imported in the workers)
+
+    names = ["add", "atan2", "clip", "copysign", "divide", "equal", "floor_divide", "fmod", "greater_equal", "less", "maximum", "minimum", "pow", "where"]
+    tasks = [{"fn": "harness.checks.c10:_bb_job", "args": {"cases": cases, "ops": [nm]}, "timeout": 1500} for nm in names]
+    res = run_tasks(tasks, nworkers=14, timeout=3000)
+    n = 0
+    per = {}
+    for task, out in res:
+        if out.get("status") != "ok":
+            raise MachineryError(f"broadcast-batch worker failed: {str(out)[:600]}")
+        o = out["result"]
+        n += o["n"]
+        per.update(o["per_op"])
+        for mm in o["mismatch"]:
+            c = mm["case"]
+            ctx.violation({"engine": "broadcast_batch", "op": mm["op"], "xs": c["xs"], "ys": c["ys"], "bx": c["bx"], "by": c["by"], "what": mm["what"]},
+                          f"vmap({mm['op']}, in_axes=({c['bx'] - 1 if c['bx'] else None}, {c['by'] - 1 if c['by'] else None})) on per-example shapes {c['xs']} / {c['ys']}: {mm['what']}: {mm['detail'][:160]}", mm)
+        for c in task["args"]["cases"]:
+            ctx.count(("broadcast_batch", task["args"]["ops"][0], json.dumps(c, sort_keys=True)), nontrivial=True, n=0)
+    ctx.extra["broadcast_batch_per_op"] = per
+    ctx.extra["broadcast_batch_cases_run"] = n
+    ctx.cov["evaluations"] += n
+    return n
+
+
 def run(ctx: Ctx) -> None:
     rng = random.Random(ctx.seed)
     r = run_tlc("MC_Transform", "MC_Transform.cfg", timeout=900, workers=1)
@@ -94,6 +145,7 @@ def run(ctx: Ctx) -> None:
     from harness.checks.c01 import axis_operator_replay
 
     ncmp += axis_operator_replay(ctx, "vmap", "axis_vmap")
+    ncmp += broadcast_batch_replay(ctx)
     ctx.extra["corpus_transform_status"] = stats
     ctx.cov["traces_validated_against_impl"] = ncmp
     ctx.cov["rule"] = "one evaluation = one transformed callable exported and executed in ORT vs JAX's own evaluation of the transformed callable (or one exact template case); export failures of T(f) are counted, not alarmed"
